@@ -25,6 +25,10 @@ class KDRandomAdditiveGaussianNoise(KDRandomApplyBase):
             clip_max=clip_max,
         )
 
+    def set_rng(self, rng):
+        self.noise.set_rng(rng)
+        return super().set_rng(rng)
+
     def _scale_strength(self, factor):
         self.noise.scale_strength(factor)
 
